@@ -56,6 +56,8 @@ def gates(c, tier):
         out.append("state x op cells never exercised: " + ",".join(missing[:10]))
     if c.get("long-lived-sessions", 0) == 0:
         out.append("no long-lived session (ids > 256)")
+    if c.get("base-session-terminations", 0) == 0:
+        out.append("base class LDAPSession never driven")
     if c.get("exhaustive-histories", 0) == 0:
         out.append("bounded-exhaustive part did not run")
     return out
@@ -87,7 +89,61 @@ def run_concrete(steps):
     return [], pair
 
 
+def base_session_cases():
+    """The exported base class LDAPSession driven directly: an unbind or a notice of disconnection closes it for good
+    (whatever was received before, in one delivery or several); malformed input closes it too."""
+    from vf.ref import rfc4511
+
+    ext = rfc4511.encode(("ExtendedRequest", 5, ("1.2.3", None), ()))
+    done = rfc4511.encode(("SearchResultDone", 7, ((0, "", "", None),), ()))
+    unbind = rfc4511.encode(("UnbindRequest", 9, (), ()))
+    notice = rfc4511.encode(("ExtendedResponse", 0, ((52, "", "bye", None), NOTICE, None), ()))
+    cases = []
+    for pre in (b"", ext, done, ext + done):
+        for term, how in ((unbind, "unbind"), (notice, "notice"), (b"\x04\x00", "malformed")):
+            cases.append((how, [pre + term]))
+            cases.append((how, [pre, term]))
+            cases.append((how, [pre + term[:3], term[3:]]))
+    return cases
+
+
+def check_base_session(how, deliveries):
+    out = []
+    s = sl.LDAPSession()
+    raised = False
+    for d in deliveries:
+        try:
+            s.receive(d)
+        except sl.ProtocolError:
+            raised = True
+        except Exception as e:
+            return [(f"base-session:escape:{type(e).__name__}", f"LDAPSession.receive raised {type(e).__name__}: {e}")]
+    if not raised or s.state.name != "CLOSED":
+        return [(f"base-session:not-closed-by-{how}", f"LDAPSession given {how}: ProtocolError raised={raised}, state {s.state.name}")]
+    for probe in (b"", deliveries[0] or b"\x30\x00"):
+        try:
+            s.receive(probe)
+            out.append((f"closed-not-final:base-session:{how}", "a CLOSED LDAPSession accepted further input"))
+        except sl.ProtocolError:
+            pass
+        except Exception as e:
+            out.append((f"base-session:escape:{type(e).__name__}", str(e)))
+    if s.state.name != "CLOSED" or s.data_to_send():
+        out.append((f"closed-not-final:base-session:{how}", f"state {s.state.name} / bytes queued after closure"))
+    return out
+
+
+NOTICE = "1.3.6.1.4.1.1466.20036"
+
+
 def run_shard(ctx: Ctx, acc: Acc):
+    if ctx.shard % 4 == 3:
+        for how, deliveries in base_session_cases():
+            acc.case()
+            acc.count("base-session-terminations")
+            acc.nontrivial("base", how, tuple(deliveries))
+            for key, what in check_base_session(how, deliveries):
+                acc.violation(key, what, {"base": [how, deliveries]})
     n = ctx.scale(40_000, 1_000_000)
     for i in range(n):
         r = ctx.rng(i)
@@ -148,6 +204,8 @@ def run_shard(ctx: Ctx, acc: Acc):
 
 
 def replay(w):
+    if w.get("base"):
+        return check_base_session(w["base"][0], [bytes(d) for d in w["base"][1]])
     steps = [(s, _fix(a)) for s, a in w["steps"]]
     if w.get("single"):
         drv = Driver(w["single"], "drain")
